@@ -22,6 +22,7 @@ CountSegs(c) == LET RECURSIVE cnt(_, _)
 Goal_RtoRetransmit      == ~(A.lost > 0)
 Goal_FastOrEarly        == ~(A.change > 0)
 Goal_LossAndFastTogether == ~(A.lost > 0 /\ A.change > 0)
+Goal_LossAndFastWithBacklog == ~(A.lost > 0 /\ A.change > 0 /\ \E e \in Ends : k[e].snd_queue # <<>> /\ k[e].nocwnd = 0 /\ k[e].cwnd = 1)
 Goal_LossThenAdmitLater == ~(obs.latched /\ obs.reinfl)
 Goal_TwoLossesInOneFlush == ~(A.lost >= 2)
 Goal_RetransmitTwice    == ~(\E e \in Ends : \E i \in 1..Len(k[e].snd_buf) : k[e].snd_buf[i].xmit >= 3)
